@@ -153,7 +153,7 @@ func c05Decoder(c *Ctx, prog *load.Program) {
 		c.R.Unknown("C05-2", "decoder", pos, "initialiser does not return a table pointer")
 		return
 	}
-	BIN := sym.Sym(sym.Bytes, "BIN")
+	BIN := absint.SymBytes("BIN", int(total), 0)
 	bad := ""
 	n := 0
 	for i := 0; i < 32 && bad == ""; i++ {
